@@ -1,7 +1,650 @@
-//! C01 — not built yet.
-use lv_common::Ctx;
+//! C01 — Header validation binds signatures, validator set and DAH.
+//!
+//! Per generated chain, for every header: (i) the honest header validates and survives the protobuf and JSON
+//! round trips; (ii) every single-field mutant of every family at every applicable site fails `validate()` and
+//! `decode_and_validate(encode(mutant))`. A surviving mutant is classified by a predicate computed from the case:
+//! commit-signature sites that the light rule never examines (entry not Commit-flagged, or the Commit power
+//! before it already exceeds 2/3) are the keyed open finding `C01:commit-sig-field-after-quorum`; anything else
+//! is a violation.
+use celestia_types::nmt::{NamespacedHash, NamespacedHashExt};
+use celestia_types::{DataAvailabilityHeader, ExtendedHeader, ValidatorSet};
+use ed25519_consensus::SigningKey;
+use lv_common::Prng;
+use lv_common::prelude::*;
+use lv_gen::chain::{BlockSpec, ChainSpec, DahKind, TimeBase, VoteKind, build_chain, key_for, seal, val_info};
+use lv_gen::hdrref::{ref_light_power, ref_light_power_before, sign_nil_slots_properly, sum_power};
+use lv_gen::square::square_strategy;
+use tendermint::block::{CommitSig, Id as BlockId, parts};
+use tendermint::hash::{AppHash, Hash};
+use tendermint::{Signature, Time, account};
+use tendermint_proto::Protobuf;
 
-pub fn run(_ctx: &mut Ctx) {
-    eprintln!("C01: check not built yet");
-    std::process::exit(2);
+#[derive(Clone, Debug, Serialize, Deserialize)]
+pub struct Case {
+    pub chain: ChainSpec,
+    /// selectors for the sampled choices inside families (bit positions, swap partners)
+    pub sels: Vec<u16>,
+}
+
+fn set_strategy() -> impl Strategy<Value = Vec<(u8, u64)>> {
+    prop_oneof![
+        // equal powers with a member count divisible by 3: dropping one vote lands exactly on 2/3
+        2 => (prop_oneof![Just(3usize), Just(6usize)], prop_oneof![Just(1u64), 1u64..=1000]).prop_map(|(n, p)| (0..n as u8).map(|i| (i, p)).collect()),
+        2 => prop::collection::vec((0u8..24, 1u64..=3), 1..=8),
+        4 => lv_gen::chain::set_strategy(8),
+    ]
+}
+
+fn block_strategy(max_log2: u8) -> impl Strategy<Value = BlockSpec> {
+    let votes = prop_oneof![
+        2 => Just(vec![]),
+        3 => prop::collection::vec(lv_gen::chain::vote_strategy(), 0..=8),
+        1 => prop::collection::vec(prop_oneof![Just(VoteKind::Nil), Just(VoteKind::Absent), Just(VoteKind::Commit)], 8),
+    ];
+    (
+        1u32..600_000,
+        votes,
+        prop_oneof![2 => Just(DahKind::Empty), 3 => square_strategy(0, max_log2).prop_map(DahKind::Square)],
+        prop_oneof![3 => Just(None), 1 => set_strategy().prop_map(Some)],
+    )
+        .prop_map(|(dt_ms, votes, dah, next_set)| BlockSpec {
+            dt_ms,
+            votes,
+            dah,
+            next_set,
+        })
+}
+
+fn case_strategy(max_log2: u8) -> impl Strategy<Value = Case> {
+    (
+        any::<u64>(),
+        lv_gen::chain::chain_id_strategy(),
+        prop_oneof![3 => Just(1u64), 2 => 2u64..1000, 1 => (1u64 << 32)..(1u64 << 40)],
+        1u8..=7,
+        set_strategy(),
+        prop::collection::vec(block_strategy(max_log2), 2..=6),
+        prop::collection::vec(any::<u16>(), 48),
+    )
+        .prop_map(|(seed, chain_id, start_height, app_version, set0, blocks, sels)| Case {
+            chain: ChainSpec {
+                seed,
+                chain_id,
+                start_height,
+                app_version,
+                time_base: TimeBase::Fixed(1_600_000_000 + (seed % 100_000_000)),
+                set0,
+                blocks,
+            },
+            sels,
+        })
+}
+
+fn flip_hash(h: &Hash, bit: u16) -> Hash {
+    match h {
+        Hash::Sha256(b) => {
+            let mut b = *b;
+            b[(bit as usize / 8) % 32] ^= 1 << (bit % 8);
+            Hash::Sha256(b)
+        }
+        Hash::None => Hash::Sha256([0x5a; 32]),
+    }
+}
+
+fn flip_addr(a: &account::Id, bit: u16) -> account::Id {
+    let mut b: [u8; 20] = a.as_bytes().try_into().unwrap();
+    b[(bit as usize / 8) % 20] ^= 1 << (bit % 8);
+    account::Id::new(b)
+}
+
+fn flip_root(r: &NamespacedHash, bit: u16) -> NamespacedHash {
+    let mut raw = r.to_array();
+    // flip inside the 32-byte digest part (namespace-range bytes are covered by the swap/append families)
+    let off = raw.len() - 32 + (bit as usize / 8) % 32;
+    raw[off] ^= 1 << (bit % 8);
+    NamespacedHash::from_raw(&raw).expect("90-byte root")
+}
+
+fn plus_nanos(t: Time, n: u64) -> Time {
+    (t + std::time::Duration::from_nanos(n)).unwrap()
+}
+
+struct Judge<'a> {
+    honest: &'a ExtendedHeader,
+    honest_key: Vec<u8>,
+}
+
+impl Judge<'_> {
+    /// `sig_idx` = the commit-signature entry the mutation touched (None for every other family).
+    fn judge(&self, obs: &mut Obs, family: &'static str, site: &str, m: ExtendedHeader, sig_idx: Option<usize>) -> Result<(), Failure> {
+        if m == *self.honest {
+            obs.label("noop-skipped");
+            return Ok(());
+        }
+        obs.label(family);
+        let mut key = self.honest_key.clone();
+        key.extend_from_slice(family.as_bytes());
+        key.extend_from_slice(site.as_bytes());
+        obs.eval(Some(digest_bytes(&key)));
+        let accepted = match lv_common::no_panic(|| m.validate()) {
+            Ok(r) => r.is_ok(),
+            Err(rec) => {
+                obs.label("panicked-instead-of-rejecting");
+                obs.note(format!("panic while validating a mutant ({family}): {rec}"));
+                false
+            }
+        };
+        if accepted {
+            self.classify(obs, family, site, &m, sig_idx, "validate()")?;
+        }
+        // wire form
+        let wire = lv_common::no_panic(|| {
+            let enc = m.clone().encode_vec();
+            ExtendedHeader::decode_and_validate(&enc)
+        });
+        match wire {
+            Ok(Ok(d)) => {
+                if d == *self.honest {
+                    obs.label("wire-noop");
+                } else if !accepted {
+                    // decoding normalised something but the result still differs from the honest header
+                    self.classify(obs, family, site, &d, sig_idx, "decode_and_validate(encode(mutant))")?;
+                }
+            }
+            Ok(Err(_)) => {}
+            Err(rec) => {
+                obs.label("panicked-instead-of-rejecting");
+                obs.note(format!("panic while encoding/decoding a mutant ({family}): {rec}"));
+            }
+        }
+        Ok(())
+    }
+
+    fn classify(&self, obs: &mut Obs, family: &str, site: &str, m: &ExtendedHeader, sig_idx: Option<usize>, via: &str) -> Result<(), Failure> {
+        let cid = m.header.chain_id.as_str();
+        let total = sum_power(&m.validator_set);
+        let p = ref_light_power(&m.validator_set, cid, &m.commit);
+        let h = self.honest.height();
+        if 3 * p <= 2 * total {
+            return obs.fail(
+                "C01:accepted-without-two-thirds",
+                format!("height {h}: mutant [{family} @ {site}] accepted by {via} although valid Commit power is {p} of {total} (not > 2/3)"),
+            );
+        }
+        // which commit entries differ from the honest header, and does anything else differ?
+        let hs = &self.honest.commit.signatures;
+        let ms = &m.commit.signatures;
+        let mut only_sigs = ms.len() == hs.len();
+        if only_sigs {
+            let mut probe = m.clone();
+            probe.commit.signatures = hs.clone();
+            only_sigs = probe == *self.honest;
+        }
+        if only_sigs {
+            let differing: Vec<usize> = (0..ms.len()).filter(|&i| ms[i] != hs[i]).collect();
+            if let Some(i) = sig_idx {
+                if !differing.contains(&i) {
+                    return obs.fail("gen", format!("mutant [{family} @ {site}] does not differ at entry {i}"));
+                }
+            }
+            let unexamined = |i: usize| {
+                let commit_flagged = matches!(ms.get(i), Some(CommitSig::BlockIdFlagCommit { .. }));
+                !commit_flagged || 3 * ref_light_power_before(&m.validator_set, cid, &m.commit, i) > 2 * total
+            };
+            if !differing.is_empty() && differing.iter().all(|&i| unexamined(i)) {
+                obs.label("survivor-unexamined-sig-site");
+                return obs.fail(
+                    "C01:commit-sig-field-after-quorum",
+                    format!(
+                        "height {h}: mutant [{family} @ {site}] accepted by {via}: it differs from the honest header only in commit entries {differing:?}, each either not Commit-flagged (skipped) or after the 2/3 quorum point (total {total})"
+                    ),
+                );
+            }
+        }
+        if family == "sig-address" {
+            return obs.fail(
+                "C01:commit-sig-address-unbound",
+                format!("height {h}: mutant [{family} @ {site}] accepted by {via}: the validator_address of an examined Commit vote is bound by nothing"),
+            );
+        }
+        obs.fail(
+            &format!("C01:mutant-accepted:{family}"),
+            format!("height {h}: mutant [{family} @ {site}] accepted by {via} (set of {} validators, total power {total})", m.validator_set.validators().len()),
+        )
+    }
+}
+
+fn with_set(h: &ExtendedHeader, validators: Vec<tendermint::validator::Info>) -> Option<ExtendedHeader> {
+    let total: u64 = validators.iter().map(|v| v.power()).sum();
+    let mut m = h.clone();
+    m.validator_set = ValidatorSet {
+        validators,
+        proposer: h.validator_set.proposer().clone(),
+        total_voting_power: total.try_into().ok()?,
+    };
+    Some(m)
+}
+
+fn with_dah(h: &ExtendedHeader, rows: Vec<NamespacedHash>, cols: Vec<NamespacedHash>) -> ExtendedHeader {
+    let mut m = h.clone();
+    m.dah = DataAvailabilityHeader::new_unchecked(rows, cols);
+    m
+}
+
+fn check_header(case: &Case, obs: &mut Obs, hi: usize, h: &ExtendedHeader, keys: &[SigningKey]) -> Result<(), Failure> {
+    let seed = case.chain.seed;
+    let sel = |k: usize| case.sels[(k + hi * 7) % case.sels.len()];
+    let n = h.validator_set.validators().len();
+    let cid = h.header.chain_id.as_str().to_string();
+    let total = sum_power(&h.validator_set);
+    if n > 1 {
+        obs.label("multi-validator");
+    }
+    if h.commit.signatures.iter().any(|s| !matches!(s, CommitSig::BlockIdFlagCommit { .. })) {
+        obs.label("non-commit-vote-present");
+    }
+    obs.label(&format!("dah-width-{}", h.dah.square_width()));
+
+    // ---------------------------------------------------------------- (i) honest header
+    obs.eval(None);
+    obs.label("honest");
+    h.validate().map_err(|e| Failure::new("C01:honest-rejected", format!("honest header {hi} (height {}) rejected by validate(): {e}", h.height())))?;
+    let enc = h.clone().encode_vec();
+    let d = ExtendedHeader::decode_and_validate(&enc)
+        .map_err(|e| Failure::new("C01:honest-rejected", format!("honest header {hi} rejected by decode_and_validate after encode_vec: {e}")))?;
+    obs.check(d == *h, "C01:honest-roundtrip-differs", || format!("protobuf round trip changed header {hi}: {h:?} -> {d:?}"))?;
+    let js = serde_json::to_string(h).map_err(|e| Failure::new("C01:honest-rejected", format!("JSON serialisation failed: {e}")))?;
+    let dj: ExtendedHeader =
+        serde_json::from_str(&js).map_err(|e| Failure::new("C01:honest-rejected", format!("honest header {hi} rejected by the JSON round trip: {e}")))?;
+    obs.check(dj == *h, "C01:honest-roundtrip-differs", || format!("JSON round trip changed header {hi}"))?;
+    dj.validate().map_err(|e| Failure::new("C01:honest-rejected", format!("header {hi} after JSON round trip rejected: {e}")))?;
+
+    let j = Judge {
+        honest: h,
+        honest_key: lv_gen::chain::hash_bytes(&h.hash()).to_vec(),
+    };
+
+    // ---------------------------------------------------------------- header fields covered by the block hash
+    {
+        let mut hf = |site: &'static str, f: &dyn Fn(&mut tendermint::block::Header)| -> Result<(), Failure> {
+            let mut m = h.clone();
+            f(&mut m.header);
+            j.judge(obs, "hdr-field", site, m, None)
+        };
+        hf("version.block", &|x| x.version.block += 1)?;
+        hf("version.app", &|x| x.version.app = if x.version.app < 7 { x.version.app + 1 } else { x.version.app - 1 })?;
+        hf("chain_id", &|x| x.chain_id = format!("{}x", x.chain_id).try_into().unwrap())?;
+        hf("height+1", &|x| x.height = (x.height.value() + 1).try_into().unwrap())?;
+        if h.height() > 1 {
+            hf("height-1", &|x| x.height = (x.height.value() - 1).try_into().unwrap())?;
+        }
+        hf("time+1ns", &|x| x.time = plus_nanos(x.time, 1))?;
+        hf("time+1s", &|x| x.time = plus_nanos(x.time, 1_000_000_000))?;
+        if h.header.last_block_id.is_some() {
+            hf("last_block_id.hash", &|x| {
+                let b = x.last_block_id.as_mut().unwrap();
+                b.hash = flip_hash(&b.hash, sel(0));
+            })?;
+            hf("last_block_id.parts.total", &|x| x.last_block_id.as_mut().unwrap().part_set_header.total += 1)?;
+            hf("last_block_id.parts.hash", &|x| {
+                let b = x.last_block_id.as_mut().unwrap();
+                b.part_set_header.hash = flip_hash(&b.part_set_header.hash, sel(1));
+            })?;
+            hf("last_block_id=None", &|x| x.last_block_id = None)?;
+        } else {
+            hf("last_block_id=Some", &|x| {
+                x.last_block_id = Some(BlockId {
+                    hash: Hash::Sha256([7; 32]),
+                    part_set_header: parts::Header::new(1, Hash::Sha256([8; 32])).unwrap(),
+                })
+            })?;
+        }
+        hf("last_commit_hash", &|x| x.last_commit_hash = Some(flip_hash(&x.last_commit_hash.unwrap_or_default(), sel(2))))?;
+        hf("last_commit_hash=None", &|x| x.last_commit_hash = None)?;
+        hf("data_hash", &|x| x.data_hash = Some(flip_hash(&x.data_hash.unwrap_or_default(), sel(3))))?;
+        hf("data_hash=None", &|x| x.data_hash = None)?;
+        hf("validators_hash", &|x| x.validators_hash = flip_hash(&x.validators_hash, sel(4)))?;
+        hf("next_validators_hash", &|x| x.next_validators_hash = flip_hash(&x.next_validators_hash, sel(5)))?;
+        hf("consensus_hash", &|x| x.consensus_hash = flip_hash(&x.consensus_hash, sel(6)))?;
+        hf("app_hash.flip", &|x| {
+            let mut b = x.app_hash.as_bytes().to_vec();
+            let k = pick(sel(7), b.len());
+            b[k] ^= 1 << (sel(8) % 8);
+            x.app_hash = AppHash::try_from(b).unwrap();
+        })?;
+        hf("app_hash.append", &|x| {
+            let mut b = x.app_hash.as_bytes().to_vec();
+            b.push(0);
+            x.app_hash = AppHash::try_from(b).unwrap();
+        })?;
+        hf("app_hash.truncate", &|x| {
+            let mut b = x.app_hash.as_bytes().to_vec();
+            b.pop();
+            x.app_hash = AppHash::try_from(b).unwrap();
+        })?;
+        hf("last_results_hash", &|x| x.last_results_hash = Some(flip_hash(&x.last_results_hash.unwrap_or_default(), sel(9))))?;
+        hf("last_results_hash=None", &|x| x.last_results_hash = None)?;
+        hf("evidence_hash", &|x| x.evidence_hash = Some(flip_hash(&x.evidence_hash.unwrap_or_default(), sel(10))))?;
+        hf("evidence_hash=None", &|x| x.evidence_hash = None)?;
+        hf("proposer_address", &|x| x.proposer_address = flip_addr(&x.proposer_address, sel(11)))?;
+    }
+
+    // ---------------------------------------------------------------- DAH roots
+    let rows = h.dah.row_roots().to_vec();
+    let cols = h.dah.column_roots().to_vec();
+    let w = rows.len();
+    for i in 0..w {
+        let mut r = rows.clone();
+        r[i] = flip_root(&r[i], sel(12 + i));
+        j.judge(obs, "dah-root-flip", &format!("row{i}"), with_dah(h, r, cols.clone()), None)?;
+        let mut c = cols.clone();
+        c[i] = flip_root(&c[i], sel(13 + i));
+        j.judge(obs, "dah-root-flip", &format!("col{i}"), with_dah(h, rows.clone(), c), None)?;
+    }
+    for k in 0..6 {
+        let (a, b) = (pick(sel(20 + k), w), pick(sel(26 + k), w));
+        let mut r = rows.clone();
+        let mut c = cols.clone();
+        let site = match k % 3 {
+            0 => {
+                r.swap(a, b);
+                format!("row{a}<->row{b}")
+            }
+            1 => {
+                c.swap(a, b);
+                format!("col{a}<->col{b}")
+            }
+            _ => {
+                std::mem::swap(&mut r[a], &mut c[b]);
+                format!("row{a}<->col{b}")
+            }
+        };
+        j.judge(obs, "dah-root-swap", &site, with_dah(h, r, c), None)?;
+    }
+    {
+        let mut r = rows.clone();
+        r.pop();
+        j.judge(obs, "dah-drop-append", "drop-last-row", with_dah(h, r, cols.clone()), None)?;
+        let mut c = cols.clone();
+        c.pop();
+        j.judge(obs, "dah-drop-append", "drop-last-col", with_dah(h, rows.clone(), c), None)?;
+        let mut r = rows.clone();
+        r.push(rows[w - 1].clone());
+        j.judge(obs, "dah-drop-append", "append-row", with_dah(h, r, cols.clone()), None)?;
+        let mut c = cols.clone();
+        c.push(cols[w - 1].clone());
+        j.judge(obs, "dah-drop-append", "append-col", with_dah(h, rows.clone(), c), None)?;
+        let mut r = rows.clone();
+        let mut c = cols.clone();
+        r.pop();
+        c.pop();
+        j.judge(obs, "dah-drop-append", "drop-last-row-and-col", with_dah(h, r, c), None)?;
+    }
+    // re-sealed malformed DAH: honestly hashed and signed over a DAH whose shape validate_basic forbids
+    {
+        let mut variants: Vec<(&str, Vec<NamespacedHash>, Vec<NamespacedHash>)> = Vec::new();
+        let mut c = cols.clone();
+        c.pop();
+        variants.push(("rows!=cols(drop col)", rows.clone(), c));
+        let mut r = rows.clone();
+        r.push(rows[0].clone());
+        variants.push(("rows!=cols(extra row)", r, cols.clone()));
+        variants.push(("width-1", rows[..1].to_vec(), cols[..1].to_vec()));
+        variants.push(("width-0", vec![], vec![]));
+        for (site, r, c) in variants {
+            let mut m = with_dah(h, r, c);
+            seal(&mut m, keys);
+            sign_nil_slots_properly(&mut m, keys);
+            obs.label("resealed-malformed-dah");
+            obs.eval(Some(digest_bytes(&[j.honest_key.as_slice(), site.as_bytes()].concat())));
+            let ok = lv_common::no_panic(|| m.validate()).map(|r| r.is_ok()).unwrap_or(false);
+            obs.check(!ok, "C01:malformed-dah-accepted", || {
+                format!("height {}: header honestly sealed over a malformed DAH ({site}) accepted by validate()", h.height())
+            })?;
+        }
+    }
+
+    // ---------------------------------------------------------------- validator set
+    let vals = h.validator_set.validators().clone();
+    for i in 0..n {
+        // key replaced (address follows the key, so the set also survives protobuf decoding)
+        let mut v = vals.clone();
+        v[i] = val_info(&key_for(seed ^ 0x6b6579, 200 + i as u8), v[i].power());
+        if let Some(m) = with_set(h, v) {
+            j.judge(obs, "val-key", &format!("v{i}"), m, None)?;
+        }
+        // key replaced, address kept
+        let mut v = vals.clone();
+        v[i].pub_key = val_info(&key_for(seed ^ 0x6b6579, 200 + i as u8), 1).pub_key;
+        if let Some(m) = with_set(h, v) {
+            j.judge(obs, "val-key", &format!("v{i}-keep-address"), m, None)?;
+        }
+        for (d, name) in [(1i64, "+1"), (-1, "-1")] {
+            let p = vals[i].power() as i64 + d;
+            if p < 0 {
+                continue;
+            }
+            let mut v = vals.clone();
+            v[i].power = (p as u64).try_into().unwrap();
+            if let Some(m) = with_set(h, v) {
+                j.judge(obs, "val-power", &format!("v{i}{name}"), m, None)?;
+            }
+        }
+        if n > 1 {
+            let mut v = vals.clone();
+            v.remove(i);
+            if let Some(m) = with_set(h, v) {
+                j.judge(obs, "valset-remove", &format!("v{i}"), m, None)?;
+            }
+            // removal together with its commit entry (keeps the lengths consistent)
+            let mut v = vals.clone();
+            v.remove(i);
+            if let Some(mut m) = with_set(h, v) {
+                m.commit.signatures.remove(i);
+                j.judge(obs, "valset-remove", &format!("v{i}+entry"), m, None)?;
+            }
+        }
+        if i + 1 < n {
+            let mut v = vals.clone();
+            v.swap(i, i + 1);
+            if let Some(m) = with_set(h, v) {
+                j.judge(obs, "valset-reorder", &format!("v{i}<->v{}", i + 1), m, None)?;
+            }
+            // validators and their commit entries swapped together
+            let mut v = vals.clone();
+            v.swap(i, i + 1);
+            if let Some(mut m) = with_set(h, v) {
+                m.commit.signatures.swap(i, i + 1);
+                j.judge(obs, "valset-reorder", &format!("v{i}<->v{}+entries", i + 1), m, None)?;
+            }
+        }
+    }
+    for (pos, name) in [(n, "end"), (0, "front")] {
+        let extra = val_info(&key_for(seed ^ 0xadd, 210), 1 + (sel(30) as u64 % 5));
+        let mut v = vals.clone();
+        v.insert(pos, extra.clone());
+        if let Some(m) = with_set(h, v.clone()) {
+            j.judge(obs, "valset-add", name, m, None)?;
+        }
+        if let Some(mut m) = with_set(h, v) {
+            m.commit.signatures.insert(pos, CommitSig::BlockIdFlagAbsent);
+            j.judge(obs, "valset-add", &format!("{name}+absent-entry"), m, None)?;
+        }
+    }
+
+    // ---------------------------------------------------------------- commit-level fields
+    {
+        let mut cf = |family: &'static str, site: &str, f: &dyn Fn(&mut tendermint::block::Commit)| -> Result<(), Failure> {
+            let mut m = h.clone();
+            f(&mut m.commit);
+            j.judge(obs, family, site, m, None)
+        };
+        cf("commit-block-id", "hash", &|c| c.block_id.hash = flip_hash(&c.block_id.hash, sel(31)))?;
+        cf("commit-block-id", "parts.total", &|c| c.block_id.part_set_header.total += 1)?;
+        cf("commit-block-id", "parts.hash", &|c| c.block_id.part_set_header.hash = flip_hash(&c.block_id.part_set_header.hash, sel(32)))?;
+        cf("commit-height", "+1", &|c| c.height = (c.height.value() + 1).try_into().unwrap())?;
+        if h.height() > 1 {
+            cf("commit-height", "-1", &|c| c.height = (c.height.value() - 1).try_into().unwrap())?;
+        }
+        cf("commit-round", "+1", &|c| c.round = ((c.round.value() + 1) as u16).into())?;
+    }
+
+    // ---------------------------------------------------------------- per commit-signature entry
+    for i in 0..n {
+        let entry = h.commit.signatures[i].clone();
+        let before = ref_light_power_before(&h.validator_set, &cid, &h.commit, i);
+        let examined = matches!(entry, CommitSig::BlockIdFlagCommit { .. }) && 3 * before <= 2 * total;
+        obs.label(if examined { "sig-site-examined" } else { "sig-site-unexamined" });
+        let own = h.validator_set.validators()[i].address;
+        let mut sf = |family: &'static str, site: String, e: CommitSig| -> Result<(), Failure> {
+            let mut m = h.clone();
+            m.commit.signatures[i] = e;
+            j.judge(obs, family, &site, m, Some(i))
+        };
+        let rnd_sig = Signature::new(Prng::new(seed ^ (hi as u64) << 8 ^ i as u64).array::<64>()).unwrap().unwrap();
+        match &entry {
+            CommitSig::BlockIdFlagCommit {
+                validator_address,
+                timestamp,
+                signature,
+            }
+            | CommitSig::BlockIdFlagNil {
+                validator_address,
+                timestamp,
+                signature,
+            } => {
+                let is_commit = matches!(entry, CommitSig::BlockIdFlagCommit { .. });
+                let mk = |a: account::Id, t: Time, s: Option<Signature>, commit_flag: bool| {
+                    if commit_flag {
+                        CommitSig::BlockIdFlagCommit {
+                            validator_address: a,
+                            timestamp: t,
+                            signature: s,
+                        }
+                    } else {
+                        CommitSig::BlockIdFlagNil {
+                            validator_address: a,
+                            timestamp: t,
+                            signature: s,
+                        }
+                    }
+                };
+                let (a, t, s) = (*validator_address, *timestamp, signature.clone());
+                // signature bytes
+                let mut sb: [u8; 64] = s.as_ref().unwrap().as_bytes().try_into().unwrap();
+                let bit = sel(33 + i) as usize % 512;
+                sb[bit / 8] ^= 1 << (bit % 8);
+                sf("sig-bytes", format!("e{i}.bit{bit}"), mk(a, t, Some(Signature::new(sb).unwrap().unwrap()), is_commit))?;
+                sf("sig-bytes", format!("e{i}.random"), mk(a, t, Some(rnd_sig.clone()), is_commit))?;
+                sf("sig-bytes", format!("e{i}.none"), mk(a, t, None, is_commit))?;
+                if n > 1 {
+                    // another validator's (valid) signature
+                    let o = (i + 1) % n;
+                    if let CommitSig::BlockIdFlagCommit { signature: Some(os), .. } | CommitSig::BlockIdFlagNil { signature: Some(os), .. } =
+                        &h.commit.signatures[o]
+                    {
+                        sf("sig-bytes", format!("e{i}.sig-of-e{o}"), mk(a, t, Some(os.clone()), is_commit))?;
+                    }
+                }
+                // timestamp
+                sf("sig-timestamp", format!("e{i}+1ns"), mk(a, plus_nanos(t, 1), s.clone(), is_commit))?;
+                sf("sig-timestamp", format!("e{i}+1s"), mk(a, plus_nanos(t, 1_000_000_000), s.clone(), is_commit))?;
+                // validator address
+                sf("sig-address", format!("e{i}.bitflip"), mk(flip_addr(&a, sel(34 + i)), t, s.clone(), is_commit))?;
+                if n > 1 {
+                    let o = (i + 1 + pick(sel(35 + i), n - 1)) % n;
+                    sf("sig-address", format!("e{i}.addr-of-v{o}"), mk(h.validator_set.validators()[o].address, t, s.clone(), is_commit))?;
+                }
+                // flag
+                sf("sig-flag", format!("e{i}.{}", if is_commit { "commit->nil" } else { "nil->commit" }), mk(a, t, s.clone(), !is_commit))?;
+                sf("sig-flag", format!("e{i}.->absent"), CommitSig::BlockIdFlagAbsent)?;
+                if is_commit && examined {
+                    // does removing this vote land the remaining Commit power exactly on 2/3?
+                    let p = ref_light_power(&h.validator_set, &cid, &h.commit);
+                    let mine = h.validator_set.validators()[i].power() as u128;
+                    if 3 * (p - mine) == 2 * total {
+                        obs.label("flag-change-to-exact-two-thirds");
+                    }
+                }
+            }
+            CommitSig::BlockIdFlagAbsent => {
+                let t = h.header.time;
+                sf(
+                    "sig-flag",
+                    format!("e{i}.absent->commit"),
+                    CommitSig::BlockIdFlagCommit {
+                        validator_address: own,
+                        timestamp: t,
+                        signature: Some(rnd_sig.clone()),
+                    },
+                )?;
+                sf(
+                    "sig-flag",
+                    format!("e{i}.absent->nil"),
+                    CommitSig::BlockIdFlagNil {
+                        validator_address: own,
+                        timestamp: t,
+                        signature: Some(rnd_sig.clone()),
+                    },
+                )?;
+                sf(
+                    "sig-flag",
+                    format!("e{i}.absent->commit-nosig"),
+                    CommitSig::BlockIdFlagCommit {
+                        validator_address: own,
+                        timestamp: t,
+                        signature: None,
+                    },
+                )?;
+            }
+        }
+    }
+    Ok(())
+}
+
+pub fn run(ctx: &mut Ctx) {
+    ctx.assume("honest headers come from lv_gen::chain (hashes by tendermint's Header::hash / ValidatorSet::hash and DataAvailabilityHeader::hash — the hashing itself is trusted, the binding checks are under test); signatures are made with ed25519-consensus over a hand-written canonical-vote encoding; Nil votes are signed as real nil precommits");
+    ctx.assume("survivor classification uses an independent tally (u128, ed25519-consensus) — a mutant accepted while the reference finds <= 2/3 valid Commit power is always a violation");
+    ctx.assume("validator Info.address / name / proposer_priority and the set's proposer field are not mutated: the property lists validator key and power only");
+    ctx.essential(&[
+        "honest",
+        "multi-validator",
+        "non-commit-vote-present",
+        "hdr-field",
+        "dah-root-flip",
+        "dah-root-swap",
+        "dah-drop-append",
+        "resealed-malformed-dah",
+        "val-key",
+        "val-power",
+        "valset-reorder",
+        "valset-remove",
+        "valset-add",
+        "commit-block-id",
+        "commit-height",
+        "commit-round",
+        "sig-bytes",
+        "sig-timestamp",
+        "sig-address",
+        "sig-flag",
+        "sig-site-examined",
+        "sig-site-unexamined",
+        "flag-change-to-exact-two-thirds",
+    ]);
+    let max_log2 = 4; // ODS width up to 16 => EDS width 2..32
+    let cases = ctx.tier.pick(480, 6000);
+    ctx.proptest(
+        "mutants",
+        "per generated chain of 2..6 headers (1..8 validators incl. equal-power sets of 3/6, app V1..V7, empty block or squares of EDS width 2..32, Commit/Nil/Absent mixes, set rotation): each honest header must validate and survive protobuf and JSON round trips; every single-field mutant (each hash-covered header field; every DAH row/column root bit-flipped, sampled swaps, drop/append; each validator key/power, reorder, removal, addition; commit block id / part-set header / height / round; per commit entry: signature bytes, timestamp, validator address, every flag change) must fail validate() and decode_and_validate(encode). Semantic no-ops are skipped. Non-trivial = every real mutant, distinct by (honest block hash, family, site)",
+        cases,
+        move || case_strategy(max_log2),
+        |case, obs| {
+            let chain = build_chain(&case.chain);
+            for (hi, h0) in chain.headers.iter().enumerate() {
+                let mut h = h0.clone();
+                sign_nil_slots_properly(&mut h, &chain.keys[hi]);
+                check_header(case, obs, hi, &h, &chain.keys[hi])?;
+            }
+            Ok(())
+        },
+    );
 }
